@@ -469,4 +469,187 @@ theorem history_refines (ops : List Op) (s : FS) (sz : Nat) (rs : List (List Nat
 example : absRun 2 [[1, 2], [3, 4]] [.append 2 [5, 6], .subst 2 0 [9, 9], .delete 2 1, .num 2] =
     some [[9, 9], [46, 100], [5, 6]] := by decide
 
+/-! #### callers: ptt.addBoardRecord on .BRD -/
+
+/-- regenerated from ptt/admin.go: addBoardRecord converts the 1-based board id to the 0-based record index. -/
+theorem addBoard_index_is_store_index : Gen.RecFile.addBoardIndexIsStoreIndex = true := by decide
+
+/-- what `cache.GetBid("")` finds: a complete record with an empty board name, and no earlier one. -/
+theorem vacatedSlot_spec (f : File) (k : Nat) (h : vacatedSlot f = some k) :
+    k < f.length / brdSz ∧ (record f brdSz k).head? = some 0 := by
+  unfold vacatedSlot at h
+  have h1 := List.mem_of_find?_eq_some h
+  have h2 := List.find?_some h
+  exact ⟨List.mem_range.1 h1, by simpa using h2⟩
+
+/-- a board created while slot `k` is vacated is written into exactly that record: same file length, the
+slot holds the image, every other record — in particular the FOLLOWING (`k+1`) and the PRECEDING
+(`k-1`) one — is byte-identical, and the returned board id is `k+1`. -/
+theorem addBoard_reuses_vacated (s : FS) (img : List Nat) (k : Nat) (hv : vacatedSlot s.bytes = some k)
+    (hmax : s.bytes.length / brdSz ≤ maxBoard) (himg : img.length = brdSz) :
+    addBoardRecord s img = (⟨true, writeAt s.bytes (k * brdSz) img⟩, .idx .ok (k + 1)) ∧
+    (addBoardRecord s img).1.bytes.length = s.bytes.length ∧
+    record (addBoardRecord s img).1.bytes brdSz k = img ∧
+    (∀ j, j < s.bytes.length / brdSz → j ≠ k →
+      record (addBoardRecord s img).1.bytes brdSz j = record s.bytes brdSz j) ∧
+    recs (addBoardRecord s img).1.bytes brdSz = (recs s.bytes brdSz).set k img := by
+  obtain ⟨hk, _⟩ := vacatedSlot_spec _ _ hv
+  have hle := mul_succ_le_of_lt_div hk
+  have heq : addBoardRecord s img = (⟨true, writeAt s.bytes (k * brdSz) img⟩, .idx .ok (k + 1)) := by
+    unfold addBoardRecord
+    rw [hv]
+    simp only []
+    rw [if_pos (by omega)]
+    unfold addBoardIndex
+    rw [addBoard_index_is_store_index]
+    simp only [if_true]
+    unfold substituteRecord
+    rw [writeRecordAt_nat]
+  refine ⟨heq, ?_⟩
+  rw [heq]
+  refine ⟨length_writeAt_inside _ _ _ (by rw [Nat.add_mul] at hle; omega), record_writeAt_same _ _ _ _ himg, ?_, ?_⟩
+  · intro j hj hjk
+    apply record_writeAt_other _ _ _ _ _ (mul_succ_le_of_lt_div hj)
+    rcases record_ranges_disjoint (sz := brdSz) (Ne.symm hjk) with h | h
+    · left; omega
+    · right; exact h
+  · show recs (writeAt s.bytes (k * brdSz) img) brdSz = _
+    rw [recs_writeAt _ _ _ _ (by omega) hk]
+    congr 1
+    rw [List.drop_eq_nil_of_le (by rw [length_record_of_le _ _ _ hle]; omega), List.append_nil]
+
+/-- without a vacated slot the board is appended: one more record, id = count + 1, all others intact. -/
+theorem addBoard_appends (s : FS) (img : List Nat) (hv : vacatedSlot s.bytes = none)
+    (hn : s.bytes.length / brdSz < maxBoard) (himg : img.length = brdSz) :
+    addBoardRecord s img =
+      (⟨true, s.bytes.take (s.bytes.length / brdSz * brdSz) ++ img⟩, .idx .ok (s.bytes.length / brdSz + 1)) ∧
+    recs (addBoardRecord s img).1.bytes brdSz = recs s.bytes brdSz ++ [img] := by
+  have heq : addBoardRecord s img = appendRecord s brdSz img := by
+    unfold addBoardRecord
+    rw [hv]
+    simp only []
+    rw [if_neg (by omega)]
+  rw [heq]
+  refine ⟨append_spec s brdSz img brdSz_pos himg, ?_⟩
+  unfold appendRecord
+  rw [if_neg (by have := brdSz_pos; omega)]
+  exact recs_append _ _ _ brdSz_pos himg
+
+/-- a full board table refuses the board and leaves `.BRD` as it is. -/
+theorem addBoard_full (s : FS) (img : List Nat) (hv : vacatedSlot s.bytes = none)
+    (hn : maxBoard ≤ s.bytes.length / brdSz) : addBoardRecord s img = (s, .idx .err 0) := by
+  unfold addBoardRecord
+  rw [hv]
+  simp only []
+  rw [if_pos hn]
+
+/-- witness for the broken rule (the 1-based id handed to the 0-based SubstituteRecord): the record
+FOLLOWING the vacated slot is replaced by the image and the slot itself stays as it was. -/
+theorem one_based_index_overwrites_next (s : FS) (img : List Nat) (k : Nat) (himg : img.length = brdSz)
+    (hk : k + 1 < s.bytes.length / brdSz) (hdiff : record s.bytes brdSz (k + 1) ≠ img) :
+    record (substituteRecord s brdSz ((k : Int) + 1) img).1.bytes brdSz (k + 1) ≠ record s.bytes brdSz (k + 1) ∧
+    record (substituteRecord s brdSz ((k : Int) + 1) img).1.bytes brdSz k = record s.bytes brdSz k := by
+  have h1 := (substitute_stores s brdSz (k + 1) img himg).2
+  have hc : ((k + 1 : Nat) : Int) = (k : Int) + 1 := by omega
+  rw [hc] at h1
+  refine ⟨by rw [h1]; exact fun h => hdiff h.symm, ?_⟩
+  exact writeRecordAt_record_other s brdSz _ img brdSz_pos (by omega) k (by omega) (by omega)
+
+/-! #### callers: the .DIR.bottom count behind the board cache -/
+
+/-- regenerated from cache/cache_board.go: both guards on the pinned-article count are strict (`n > 5`),
+with the same limit — 5 pinned articles, the legal maximum, is NOT over the limit. -/
+theorem bottom_guards :
+    Gen.RecFile.setBottomStrict = true ∧ Gen.RecFile.reloadBottomStrict = true ∧
+    Gen.RecFile.setBottomLimit = Gen.RecFile.reloadBottomLimit ∧ Gen.RecFile.setBottomLimit < 256 := by decide
+
+def maxPinned : Nat := Gen.RecFile.setBottomLimit
+
+/-- ReloadBCache never touches the file; with at most `maxPinned` records the cached count is the count. -/
+theorem reloadBottom_frame (f : FS) :
+    (reloadBottom f).file = f ∧ (reloadBottom f).cold = true ∧
+    (bottomCount f ≤ maxPinned → (reloadBottom f).nBottom = bottomCount f) := by
+  refine ⟨rfl, rfl, ?_⟩
+  intro h
+  obtain ⟨_, h2, h3, _⟩ := bottom_guards
+  unfold maxPinned at h
+  simp only [reloadBottom, overLimit, h2, if_true]
+  rw [← h3]
+  have : ¬ (bottomCount f > Gen.RecFile.setBottomLimit) := by omega
+  simp [this]
+
+/-- SetBottomTotal (the cold path of every first read of a board) on a file with 0..maxPinned records —
+the whole legal range, the full set of 5 included — leaves the file exactly as it is and caches its count. -/
+theorem setBottomTotal_preserves (f : FS) (h : bottomCount f ≤ maxPinned) :
+    setBottomTotal f = (f, bottomCount f) := by
+  obtain ⟨h1, _, _, h4⟩ := bottom_guards
+  unfold maxPinned at h
+  unfold setBottomTotal setBottomTotalG
+  have hm : bottomCount f % 256 = bottomCount f := Nat.mod_eq_of_lt (by omega)
+  simp only [hm, overLimit, h1, if_true]
+  have : ¬ (bottomCount f > Gen.RecFile.setBottomLimit) := by omega
+  simp [this]
+
+/-- witness for the broken rule: with the non-strict guard (`n >= 5`) a first read of a board with the
+full set of pinned articles unlinks .DIR.bottom. -/
+theorem nonstrict_guard_destroys_full_set (f : FS) (h : bottomCount f = 5) :
+    setBottomTotalG false 5 f = (FS.absent, 0) := by
+  simp [setBottomTotalG, overLimit, h]
+
+/-- `n` successive reads of the board (each goes through GetBTotalWithRetry). -/
+def coldReads : Nat → Bottom → Bottom
+  | 0, b => b
+  | n + 1, b => coldReads n (coldRead b)
+
+/-- any number of reads of the board after a reload: the file is byte-identical and the cached count is
+the record count (legal range). -/
+theorem bottom_reads_frame (f : FS) (h : bottomCount f ≤ maxPinned) (n : Nat) :
+    (coldReads n (reloadBottom f)).file = f ∧
+    (coldReads n (reloadBottom f)).nBottom = bottomCount f := by
+  have hr := reloadBottom_frame f
+  suffices hs : ∀ n (b : Bottom), b.file = f → b.nBottom = bottomCount f →
+      (coldReads n b).file = f ∧ (coldReads n b).nBottom = bottomCount f from
+    hs n _ hr.1 (hr.2.2 h)
+  intro n
+  induction n with
+  | zero => intro b h1 h2; exact ⟨h1, h2⟩
+  | succ n ih =>
+    intro b h1 h2
+    show (coldReads n (coldRead b)).file = f ∧ (coldReads n (coldRead b)).nBottom = bottomCount f
+    apply ih
+    · unfold coldRead; split
+      · simp only [h1, setBottomTotal_preserves f h]
+      · exact h1
+    · unfold coldRead; split
+      · simp only [h1, setBottomTotal_preserves f h]
+      · exact h2
+
+/-- ... and the bottom window then returns exactly all pinned records, in order. -/
+theorem loadBottom_window (f : FS) (h : bottomCount f ≤ maxPinned) (n : Nat) :
+    loadBottom (coldReads n (reloadBottom f)) =
+      .recs .ok ((List.range' 1 (bottomCount f)).map (fun i => (i, record f.bytes dirSz (i - 1)))) := by
+  obtain ⟨h1, h2⟩ := bottom_reads_frame f h n
+  unfold loadBottom
+  rw [h1, h2]
+  by_cases h0 : bottomCount f = 0
+  · simp [h0]
+  · rw [if_neg h0]
+    have hp : f.present = true := by
+      cases hpp : f.present with
+      | true => rfl
+      | false => simp [bottomCount, hpp] at h0
+    have hw := getRecords_window f 1 (bottomCount f) false hp (Nat.le_refl _)
+    simp only [Bool.false_eq_true, if_false] at hw
+    have hc : ((1 : Nat) : Int) = 1 := rfl
+    rw [hc] at hw
+    rw [hw]
+    unfold windowAsc
+    have : bottomCount f = f.bytes.length / dirSz := by simp [bottomCount, hp]
+    rw [← this]
+    congr 3
+    omega
+
+example : loadBottom (coldRead (reloadBottom ⟨true, List.replicate 640 7⟩)) =
+    .recs .ok ((List.range' 1 5).map (fun i => (i, List.replicate 128 7))) := by decide +kernel
+
 end PttVerif.C05.Props
